@@ -10,8 +10,10 @@ import (
 	"context"
 	"encoding/json"
 	"fmt"
+	"reflect"
 	"sort"
 	"strconv"
+	"strings"
 	"sync"
 	"sync/atomic"
 	"testing"
@@ -57,11 +59,12 @@ func TestC19(t *testing.T) {
 		}
 		runCase(t, r, i)
 	}
-	r.Require("drops_observed", "kept_declared", "kept_fresh", "kept_pinned", "kept_no_expiry_age", "restarts", "polls", "reads", "payloads_checked", "kept_exactly_at_age", "handle_grabbed_during_poll_of_stale_secret", "racing_lookups", "polls_with_not_found")
+	r.Require("drops_observed", "kept_declared", "kept_fresh", "kept_pinned", "kept_no_expiry_age", "restarts", "polls", "reads", "payloads_checked", "kept_exactly_at_age", "handle_grabbed_during_poll_of_stale_secret", "racing_lookups", "polls_with_not_found", "reads_through_struct_fields", "lookups_during_a_poll_cache_write")
 	r.Rule("seeded histories over 2 declarable + 4 undeclared names: a first process started from a crafted cache (last-access stamps incl. 0, stale, fresh, far future), then events {restart from the last payload with a new declared set and expiry age in {0,-1s,1s,1h,30d}; clock jump in {0, age-1s, age, age+1s, 10*age}; read through a handle; obtain a handle without reading; new watcher; lookup; service change; poll}. Distinct = (event kind, expiry-age class, what the poll dropped/kept and why)")
 }
 
 func runCase(t *testing.T, r *evid.Run, idx int) {
+	slowWriteDone := false
 	rng := r.Rand(uint64(idx))
 	r.Eval(1)
 	var trace []string
@@ -245,6 +248,34 @@ func runCase(t *testing.T, r *evid.Run, idx int) {
 				m[pick].pinned, m[pick].lastAccess = true, now
 				r.Count("reads", 1)
 				ev = "read " + pick
+			case x < 8 && rng.IntN(3) == 0: // read by copying the value into a struct field (ParseFields + Apply)
+				var dst struct {
+					V string `setec:"v"`
+				}
+				// the tag names the last path element; the prefix is the rest
+				pfx, base := "", pick
+				if k := strings.LastIndex(pick, "/"); k >= 0 {
+					pfx, base = pick[:k], pick[k+1:]
+				}
+				_ = base
+				ok := false
+				if f, err := parseOne(&dst, pfx, base); err == nil {
+					if err := f.Apply(context.Background(), st); err == nil {
+						ok = true
+					}
+				}
+				if !ok {
+					// names that cannot be expressed as prefix/tag are read through a handle instead
+					if handles[pick] == nil {
+						handles[pick] = st.Secret(pick)
+					}
+					handles[pick].Get()
+				} else {
+					r.Count("reads_through_struct_fields", 1)
+				}
+				m[pick].pinned, m[pick].lastAccess = true, now
+				r.Count("reads", 1)
+				ev = "read-into-field " + pick
 			case x < 8: // handle without reading
 				handles[pick] = st.Secret(pick)
 				m[pick].pinned = true
@@ -389,6 +420,51 @@ func runCase(t *testing.T, r *evid.Run, idx int) {
 						st.Close()
 						return
 					}
+				} else if cn := unknownName(m, gone); cn != "" && len(gone) == 0 && idx%12 == 0 && !slowWriteDone {
+					slowWriteDone = true // (one per history: each costs real milliseconds)
+					// The poll has something to write (a present secret has a new version), its cache write is
+					// slow, and meanwhile another goroutine looks a new name up. Whatever order the two writes
+					// are made in, the cache ends up holding the newcomer (it has a handle).
+					ver[pick]++
+					svc.Set(pick, ver[pick], []byte(fmt.Sprintf("%s#%d", pick, ver[pick])))
+					lookupDone := make(chan error, 1)
+					var started atomic.Bool
+					cache.SetOnWrite(func(int, []byte) {
+						if !started.CompareAndSwap(false, true) {
+							return // (the lookup's own write, or a later one)
+						}
+						res := make(chan error, 1)
+						go func() { _, err := st.LookupSecret(context.Background(), cn); res <- err }()
+						select {
+						case err := <-res: // the lookup went through while this write was pending
+							lookupDone <- err
+						case <-time.After(15 * time.Millisecond): // it has to wait for this write: let it
+							go func() { lookupDone <- <-res }()
+						}
+					})
+					err := st.Refresh(context.Background())
+					cache.SetOnWrite(nil)
+					if err != nil {
+						fail("poll-fails", err.Error(), nil)
+						st.Close()
+						return
+					}
+					select {
+					case lerr := <-lookupDone:
+						if lerr != nil {
+							fail("lookup-fails", lerr.Error(), nil)
+							st.Close()
+							return
+						}
+						m[cn] = &mstate{present: true, pinned: true, lastAccess: now}
+						r.Count("lookups_during_a_poll_cache_write", 1)
+						// only the final payload is judged: the earlier one of the two predates the newcomer
+						if nw := cache.NumWrites(); nw > seenWrites+1 {
+							seenWrites = nw - 1
+						}
+					case <-time.After(5 * time.Second):
+						// the poll had nothing to write after all (the hook never ran)
+					}
 				} else if err := st.Refresh(context.Background()); err != nil {
 					expected := false
 					for n := range gone {
@@ -496,4 +572,20 @@ func runCase(t *testing.T, r *evid.Run, idx int) {
 			r.Sample(map[string]any{"case": idx, "events": append([]string(nil), trace...)})
 		}
 	}
+}
+
+// parseOne builds a Fields value for a one-field struct whose tag is base (the struct type is made at run time).
+func parseOne(dst any, prefix, base string) (*setec.Fields, error) {
+	st := reflect.StructOf([]reflect.StructField{{Name: "V", Type: reflect.TypeOf(""), Tag: reflect.StructTag(fmt.Sprintf(`setec:%q`, base))}})
+	return setec.ParseFields(reflect.New(st).Interface(), prefix)
+}
+
+// unknownName returns an undeclared name the store does not hold (and the service knows), or "".
+func unknownName(m map[string]*mstate, gone map[string]bool) string {
+	for _, n := range names[2:] {
+		if s := m[n]; (s == nil || !s.present) && !gone[n] {
+			return n
+		}
+	}
+	return ""
 }
